@@ -600,7 +600,46 @@ def range_lists(V, na, nb):
     return [("the lists overlap exactly when two present ranges share a byte", B(got) == (z3.Or(*ov) if ov else z3.BoolVal(False)))]
 
 
-FUNCS = {"range_lists": range_lists, "job_volume": job_volume, "footprint_strided": footprint_strided, "area_ranges": area_ranges, "block_coords": block_coords, "programmed_addresses": programmed_addresses, "ifm_block": ifm_block, "waits": waits, "wait_step": wait_step, "rangeset": rangeset, "access": access, "dma_access": dma_access, "blockdep": blockdep, "shram_writes": shram_writes}
+def intersects_sound(V, same_base):
+    """the overlap test of the BLOCKDEP analysis (intersects) never misses shared bytes: two NHWC feature maps of equal shape and tile dimensions
+    with SYMBOLIC base addresses (equal or not), two symbolic areas (end exclusive, as calc_blockdep passes them) and one symbolic element in each;
+    whenever the two elements are the same bytes, intersects() answers True.  (The coordinate shortcut is only valid when the two feature maps
+    are the same memory.)"""
+    import ethosu.vela.register_command_stream_util as u
+    from ethosu.vela import api as a
+    from ethosu.vela.register_command_stream_util import PointXYZ
+    from harness.c10 import _srange
+
+    H, W, D = 6, 4, 16
+    b1 = V.int("ifm_base", 0, 1 << 16)
+    b2 = b1 if same_base else V.int("ofm_base", 0, 1 << 16)
+
+    def fm(base):
+        f = a.NpuFeatureMap()
+        f.data_type = a.NpuDataType.INT8
+        f.shape = a.NpuShape3D(H, W, D)
+        f.tiles = a.NpuTileBox(height_0=H, height_1=H, width_0=W, addresses=[base, 0, 0, 0])
+        f.region = 1
+        f.layout = a.NpuLayout.NHWC
+        return f
+
+    def area(tag):
+        s_ = [V.int("%s_%s0" % (tag, ax), 0, hi - 1) for ax, hi in (("x", W), ("y", H), ("z", D))]
+        e_ = [V.int("%s_%s1" % (tag, ax), 1, hi) for ax, hi in (("x", W), ("y", H), ("z", D))]
+        p_ = [V.int("%s_elem_%s" % (tag, ax), 0, hi - 1) for ax, hi in (("x", W), ("y", H), ("z", D))]
+        V.assume(z3.And(*[z3.And(L(s_[i]) < L(e_[i]), L(p_[i]) >= L(s_[i]), L(p_[i]) < L(e_[i])) for i in range(3)]))
+        return PointXYZ(*s_), PointXYZ(*e_), p_
+
+    s1, e1, p1 = area("ifm")
+    s2, e2, p2 = area("ofm")
+    off = lambda p: L(p[1]) * W * D + L(p[0]) * D + L(p[2])  # noqa: E731
+    V.assume(L(b1) + off(p1) == L(b2) + off(p2))  # the two elements are the same byte
+    with core.shims((u, {"min": core.smin, "max": core.smax, "int": core.IntShim, "range": _srange(8)})):
+        got = u.intersects(fm(b1), s1, e1, fm(b2), s2, e2)
+    return [("two areas that share a byte are reported as intersecting", B(got))]
+
+
+FUNCS = {"intersects_sound": intersects_sound, "range_lists": range_lists, "job_volume": job_volume, "footprint_strided": footprint_strided, "area_ranges": area_ranges, "block_coords": block_coords, "programmed_addresses": programmed_addresses, "ifm_block": ifm_block, "waits": waits, "wait_step": wait_step, "rangeset": rangeset, "access": access, "dma_access": dma_access, "blockdep": blockdep, "shram_writes": shram_writes}
 
 
 def instances(tier, seed):
@@ -627,8 +666,10 @@ def instances(tier, seed):
                                 params=dict(accel="Ethos_U55_128", kind=kind, wb=wb, hb=hb, db=db, stride=stride)))
     for na, nb in ((4, 1), (1, 4), (3, 3)) + (((4, 4),) if tier != "quick" else ()):
         out.append(dict(key="range_lists/%d_%d" % (na, nb), fn="range_lists", params=dict(na=na, nb=nb), weight=30))
-    for fd in (0, 1):
-        out.append(dict(key="footprint_strided/%s" % ("after_dense" if fd else "alone"), fn="footprint_strided", params=dict(first_dense=fd)))
+    for sb in (0, 1):
+        out.append(dict(key="intersects_sound/%s" % ("same_memory" if sb else "shifted"), fn="intersects_sound", params=dict(same_base=sb), weight=60))
+    for fd in (0, 1, 2):
+        out.append(dict(key="footprint_strided/%s" % ("alone", "after_dense", "retargeted")[fd], fn="footprint_strided", params=dict(first_dense=fd)))
     for wb in (1, 2, 3):
         for hb in (1, 2, 3):
             for db in (1, 2, 3):
